@@ -816,3 +816,33 @@ Proof.
   intros Hs Hsup Hc fuel Hf.
   apply (proj1 reflect_mut); [exact Hf | exact Hsup | now apply describe_has].
 Qed.
+
+(* ================================================================== end to end: dynamic.Marshal / Unmarshal *)
+
+Lemma describe_lookup_root t : is_struct t -> consistent t -> exists fl, lookup (tyname t) (describe t) = Some fl.
+Proof.
+  intros Hs Hc. destruct Hs as (nm & fs & E). subst t.
+  eexists. apply (describe_has (TStruct nm fs)); [exists nm, fs; reflexivity | exact Hc | now left].
+Qed.
+
+Lemma dyn_marshal_native t id outs v fuel :
+  is_struct t -> sup t = true -> consistent t -> (height t < fuel)%nat -> wt t v = true ->
+  dyn_marshal fuel (ABI [(id, tyname t)] outs (describe t)) (tyname t) (canon_val t v)
+  = option_map (cons id) (enc t v).
+Proof.
+  intros Hs Hsup Hc Hf Hw. unfold dyn_marshal. cbn [abi_types abi_actions find_id].
+  destruct (describe_lookup_root t Hs Hc) as (fl & ->).
+  rewrite (describe_reflect t Hs Hsup Hc fuel Hf), String.eqb_refl, (canon_bytes t v Hw).
+  destruct (enc t v); reflexivity.
+Qed.
+
+Lemma dyn_unmarshal_native t id acts outs v fuel bs rest :
+  is_struct t -> sup t = true -> consistent t -> (height t < fuel)%nat -> wt t v = true ->
+  enc t v = Some bs ->
+  dyn_unmarshal fuel (ABI acts outs (describe t)) [(id, tyname t)] (id :: bs ++ rest) = Some (canon_val t v).
+Proof.
+  intros Hs Hsup Hc Hf Hw He. unfold dyn_unmarshal. cbn [abi_types find_name].
+  rewrite N.eqb_refl, (describe_reflect t Hs Hsup Hc fuel Hf).
+  rewrite (dec_enc (canon t) (canon_val t v) bs rest); [reflexivity | now apply canon_wt |].
+  now rewrite canon_bytes.
+Qed.
